@@ -13,7 +13,7 @@ import (
 // Model vs. real library: every model is compared with the function it stands for on
 // ALL strings up to length 4 over an alphabet containing every byte class the models branch on.
 
-var alphabet = []byte{',', '=', ' ', '\t', '(', ')', '[', ']', '{', '}', '$', '#', ':', 'a', 'A', 'z', '0', '9', '.', '+', '-', '"', '\'', 0xC3, 0x80}
+var alphabet = []byte{',', '=', ' ', '\t', '(', ')', '[', ']', '{', '}', '$', '#', ':', 'a', 'A', 'z', '0', '9', '.', '+', '-', '"', '\'', '_', 0xC3, 0x80}
 
 func allStrings(max int, f func(s string)) {
 	var rec func(prefix []byte, n int)
@@ -142,6 +142,21 @@ func TestVerifModels(t *testing.T) {
 		}
 		if a, b := fmt.Sprint(findAllBraced('$', s+"${a}"+s+"${b}", -1)), fmt.Sprint(reQ.FindAllStringIndex(s+"${a}"+s+"${b}", -1)); a != b {
 			t.Fatalf("FindAllStringIndex(%q) = %s, real %s", s, a, b)
+		}
+		// template expansion: s as the replacement text, alone and embedded
+		pq := patQuote
+		for _, repl := range []string{s, "a" + s + "b", "$" + s, s + "$", "${" + s + "}", "$$" + s} {
+			var ra string
+			if guarded(func() { ra = M_regexp_Regexp_ReplaceAllString(&pq, "x${k}y${j}", repl) }) {
+				if rb := reQ.ReplaceAllString("x${k}y${j}", repl); ra != rb {
+					t.Fatalf("ReplaceAllString(repl=%q) = %q, real %q", repl, ra, rb)
+				}
+				n++
+			}
+		}
+		wrapF := func(m string) string { return "<" + m + s + ">" }
+		if a, b := M_regexp_Regexp_ReplaceAllStringFunc(&pq, s+"${a}"+s+"${b}"+s, wrapF), reQ.ReplaceAllStringFunc(s+"${a}"+s+"${b}"+s, wrapF); a != b {
+			t.Fatalf("ReplaceAllStringFunc(%q) = %q, real %q", s, a, b)
 		}
 		if a, b := M_strings_Join([]string{s, "x", s}, ","), strings.Join([]string{s, "x", s}, ","); a != b {
 			t.Fatalf("Join(%q)", s)
